@@ -111,9 +111,30 @@ spec:
   resolution: STATIC
   location: MESH_INTERNAL
   endpoints:
-  - {address: 10.0.0.1, locality: region1/zone1/sub1, network: net1, labels: {version: v1, app: a}}
-  - {address: 10.0.0.2, locality: region1/zone2/sub1, network: net1, labels: {version: v2, app: a}}
-  - {address: 10.0.0.3, locality: region2/zone1/sub1, network: net2, labels: {version: v1, app: a}}
+  - {address: 10.0.0.1, locality: region1/zone1/sub1, network: net1, labels: {version: v1, app: a, security.istio.io/tlsMode: istio}}
+  - {address: 10.0.0.2, locality: region1/zone2/sub1, network: net1, labels: {version: v2, app: a, security.istio.io/tlsMode: istio}}
+  - {address: 10.0.0.3, locality: region2/zone1/sub1, network: net2, labels: {version: v1, app: a, security.istio.io/tlsMode: istio}}
+---
+apiVersion: networking.istio.io/v1
+kind: ServiceEntry
+metadata: {name: se-static2, namespace: ns1}
+spec:
+  hosts: [static2.ns1.example.com]
+  ports: [{number: 80, name: http, protocol: HTTP}]
+  resolution: STATIC
+  location: MESH_INTERNAL
+  endpoints:
+  - {address: 10.0.1.1, locality: region1/zone1/sub1, network: net1, labels: {security.istio.io/tlsMode: istio}}
+  - {address: 10.0.1.2, locality: region2/zone1/sub1, network: net1, labels: {security.istio.io/tlsMode: istio}}
+  - {address: 10.0.1.3, locality: region2/zone1/sub1, network: net2, labels: {security.istio.io/tlsMode: istio}}
+---
+apiVersion: networking.istio.io/v1
+kind: DestinationRule
+metadata: {name: dr-static2, namespace: ns1}
+spec:
+  host: static2.ns1.example.com
+  trafficPolicy:
+    outlierDetection: {consecutive5xxErrors: 3}
 ---
 apiVersion: networking.istio.io/v1
 kind: ServiceEntry
@@ -289,7 +310,8 @@ func genHKey(t *testing.T, c *vlib.Collector, id *int, r *vlib.Rand) {
 			}
 			if s == nil {
 				features.XDSCacheMaxSize = 60000
-				s = xds.NewFakeDiscoveryServer(t, xds.FakeOptions{ConfigString: hkeyConfig})
+				s = xds.NewFakeDiscoveryServer(t, xds.FakeOptions{ConfigString: hkeyConfig, Gateways: []model.NetworkGateway{
+					{Network: "net1", Addr: "1.1.1.1", Port: 15443}, {Network: "net2", Addr: "2.2.2.2", Port: 15443}}})
 			}
 			var warm, cold, coldFirst map[string]string
 			cacheKeys := 0
